@@ -1,0 +1,21 @@
+//go:build verif
+
+package slicepool
+
+// Contracts for govc (see /verif/DESIGN.md, C12). Comment-only file.
+
+// IntPool hands out consecutive, never recycled regions of its current array; when the array is
+// exhausted a fresh one is allocated. The returned region starts exactly where the pool's
+// remaining slice started (or at 0 of a fresh array) and the remaining slice starts right behind it.
+//@ pred wf_pool(p) := p.size >= 0 && len(p.pool) >= 0
+
+//@ func NewIntPool
+//@   requires size >= 0
+//@   ensures wf_pool(result) && result.size == size && fresh(result.pool) && fresh(result)
+
+//@ func (*IntPool).Get
+//@   requires wf_pool(s) && 0 <= n && n <= s.size
+//@   modifies s.pool
+//@   ensures wf_pool(s) && len(ret) == n && s.size == old(s.size)
+//@   ensures [region] (ref(ret) == old(ref(s.pool)) && off(ret) == old(off(s.pool))) || (fresh(ret) && off(ret) == 0)
+//@   ensures [advance] ref(s.pool) == ref(ret) && off(s.pool) == off(ret) + n
